@@ -44,8 +44,32 @@ CLAIM = {
             "of a run, continuation mark followed directly by `#`; TrimAll = TRUE (TrimRight instead of TrimSuffix) is refuted on files, prefixes and "
             "layouts. B1 additionally compares, case by case, optimised / unoptimised / reverse history / inlined body under both compilers / every "
             "layout against one-definition-per-line (relations the model proves), demands the value itself only where escapes stand in top-level "
-            "literal text (documented), and sends every 10th escape vector through the CLI with and without --no-optimize.",
-    "note": "Bounded: trees of depth <= 2, values over {'',0,7,a}, the modelled helper subset in B3/B1 (the law records of B2 cover every "
+            "literal text (documented), and sends every 10th escape vector through the CLI with and without --no-optimize. "
+            "FAILING DEFINITIONS (strengthened): the loader machine compiles every definition (C09's parse model under the function table of that moment: "
+            "builtins + definitions registered so far); a body with an unknown function (misspelt helper, call of a definition that failed or comes later), "
+            "an unterminated or an empty statement is reported and skipped, the loader goes on, and everything that compiled is delivered to the function "
+            "table: InvRegs (at every step), InvKeepsGood (what is delivered = every definition of Meaning(file) that compiles in its place), InvIndep (the "
+            "failing ones are as if not written) over every file of <= N lines incl. five such line forms; OnError = dropall (nothing delivered when any "
+            "definition failed) and stop (give up at the first) are refuted. B1: 18 (72) generated files holding u1..u9 in generated layouts plus one or two "
+            "failing definitions before / between / after them (incl. a failing re-definition of u1): names delivered = LoadC, every call vector evaluated "
+            "against them = the value with the canonical file, and `rare --funcs f` / RARE_FUNC_FILES=f on such files; B2: every second random funcs file "
+            "holds 1-3 failing definitions (also wrong argument counts). "
+            "THE PROBE IS AN EVALUATION (strengthened): ExprProbe.tla models the process - compile (with optimisation: one evaluation of every expression "
+            "against the all-empty context, on the exit path THAT context forces: no element, or the iteration cap of a {@for} whose start or bound comes from "
+            "the match) and then G goroutines evaluating nested array helpers that take their sub-context from the one process-wide pool (Get, re-initialise, "
+            "bind element, {0} / key look-ups, nested helpers, {0} again, Return). Laws in both modes and for LIFO and FIFO pools: OwnValues (every look-up "
+            "answered with the asking activation's own element / line = the pool-free semantics), ProbeNeutral (compilation leaves every object in the pool "
+            "exactly once), Exclusive, Survives, Conserved, termination. ExprProbeScn.tla makes it concrete: 11 expressions (6 run away under the probe, 3 "
+            "see no element, 2 end) x 4 witnesses (nested 1-3 deep) as ExprArray trees; Shape/ProbeExit compute the model's activation shapes from the trees "
+            "(declared shapes = computed shapes is checked). Refuted: an exit path (for/inf, map/zero, filter/err) that returns its object twice - with "
+            "optimisation; WITHOUT optimisation the same deviation satisfies every law, i.e. the two modes differ. B1: every scenario runs in two fresh child "
+            "processes (optimising / plain compiler): p and w on 4 lines twice sequentially, then from 8 goroutines; every value = ExprArray!EvalT's value in "
+            "both processes, the processes agree, neither dies. B2: random processes with data-bounded loops and nested witnesses, law proc-opt-noopt.",
+    "note": "Probe scenarios: activation shapes abstract one element per activation; the exit path of a NESTED helper under the probe is computed with "
+            "empty elements; only the process-wide sub-context pool is modelled (the per-stage pools of {! ..} and of funcs-file call sites are exercised by "
+            "conc-seq on optimised expressions); a pool that merely grows (leak) is not demanded. Failing definitions: wrong argument counts are not in the "
+            "parse model (B2 only); what the loader's error value says is not demanded. "
+            "Bounded: trees of depth <= 2, values over {'',0,7,a}, the modelled helper subset in B3/B1 (the law records of B2 cover every "
             "registered helper but only relate two observations). Outside the substitution law: bodies that re-bind {0} in a nested "
             "sub-expression (@map \"{0}\"); '#' inside a definition (always a comment), a body ending in a backslash; for escapes inside arguments only the relations of the property are demanded of the real code (their value is C09's subject). hist-fresh is not demanded of time/buckettime, "
             "whose documented 'cache' format remembers the first detected layout. Records in which both sides panic or the command reports a "
@@ -71,9 +95,19 @@ def _gen_cfg(thorough, nfiles):
             % (_b(thorough), nfiles))
 
 
-def _ff_cfg(n, mode, trimall=False, inv="InvLineCount InvNoLeak InvPrefix InvDone InvLayout InvRuns"):
-    return ("SPECIFICATION Spec\nCONSTANTS N = %d\n Mode = \"%s\"\n TrimAll = %s\nINVARIANTS %s\n"
-            "PROPERTY Terminates\nCHECK_DEADLOCK FALSE\n" % (n, mode, _b(trimall), inv))
+def _ff_cfg(n, mode, trimall=False, inv="InvLineCount InvNoLeak InvPrefix InvDone InvLayout InvRuns InvRegs InvKeepsGood InvIndep", onerror="skip"):
+    return ("SPECIFICATION Spec\nCONSTANTS N = %d\n Mode = \"%s\"\n TrimAll = %s\n OnError = \"%s\"\n Builtins <- MCBuiltins\nINVARIANTS %s\n"
+            "PROPERTY Terminates\nCHECK_DEADLOCK FALSE\n" % (n, mode, _b(trimall), onerror, inv))
+
+
+def _probe_cfg(case, pis, wis, opts=(True, False), evalp=False, g=2, fifo=False, double=(), leak=(), noreset=(), runinf=False,
+               inv="PTypeOK OwnValues Survives Exclusive ProbeNeutral Conserved Agree", live=False):
+    st = lambda xs: "{" + ", ".join(str(x) for x in xs) + "}"
+    qs = lambda xs: "{" + ", ".join('"%s"' % x for x in xs) + "}"
+    return ("SPECIFICATION MCSpec\nCONSTANTS Case = \"%s\"\n PIs = %s\n WIs = %s\n Opts = %s\n EvalP = %s\n G = %d\n N = 1\n PoolSize = 2\n MaxObj = 9\n"
+            " Fifo = %s\n RunInf = %s\n Double = %s\n Leak = %s\n NoReset = %s\nINVARIANTS %s\n%sCHECK_DEADLOCK FALSE\n"
+            % (case, st(pis), st(wis), st(_b(o) for o in opts), _b(evalp), g, _b(fifo), _b(runinf), qs(double), qs(leak), qs(noreset), inv,
+               "PROPERTY Terminates\n" if live else ""))
 
 
 def _pool_cfg(w, j, p, prog, locked=True, early=False, init=True, inv="TypeOK SeesOwn Exclusive NoLeak Bounded"):
@@ -104,7 +138,11 @@ def _check(run):
         "the law records relate two observations of the real code; records where both evaluations panic or the command line reports a compile "
         "error on both sides are outside this property (C08)",
         "funcs-file layouts: names without blanks, no '#', raw TAB/LF or backslash-final text in a definition (escapes \\t \\n \\\\ \\{ inside bodies are generated); a definition whose body "
-        "has a compile error is documented to be refused and is not generated",
+        "has a compile error is refused (reported, skipped); the other definitions of that file are delivered - the unchanged loader goes on after a bad "
+        "definition and main.go registers what it is handed even when the loader reports errors; the documentation is silent, the property speaks of every "
+        "function loaded from a funcs file",
+        "the optimiser's probe may take any time, but it may not change what a later evaluation in the same process answers; expressions whose loop "
+        "runs away on REAL data are outside (C08)",
         "command-line sample: group values that urfave/cli would split, trim or drop (commas, surrounding blanks, empty) are not sent through the CLI",
     ]
     run.build_harness()
@@ -158,12 +196,20 @@ def _check(run):
             if inv not in r.violated:
                 raise Inconclusive("FuncFile does not reject %s (violated=%s)\n%s" % (name, r.violated, r.out[-1500:]))
             lneg[name] = inv + " violated"
+        # a loader that hands back nothing when ANY definition failed (`return nil, err`), or gives up at the first failing
+        # definition, must be refuted by "every definition that compiles in its place is delivered"
+        for name, oe in [("one-failing-definition-loses-all-of-the-file", "dropall"), ("loader-stops-at-the-first-failing-definition", "stop")]:
+            r = run.tlc("FuncFile_MC", _ff_cfg(2, "lines", inv="InvKeepsGood", onerror=oe).replace("PROPERTY Terminates\n", ""), workers=1, timeout=900,
+                        label="FuncFile_MC negative: " + name)
+            if "InvKeepsGood" not in r.violated:
+                raise Inconclusive("FuncFile does not reject %s (violated=%s)\n%s" % (name, r.violated, r.out[-1500:]))
+            lneg[name] = "InvKeepsGood violated"
         run.cov["loader_model_rejects"] = lneg
 
     # ---- B3 (b): the loader
     def loader():
         n = 3 if quick else 4
-        r = run.tlc("FuncFile_MC", _ff_cfg(n, "lines"), workers=1 if quick else 4, timeout=3000, label="FuncFile_MC lines N=%d" % n, coverage=quick)
+        r = run.tlc("FuncFile_MC", _ff_cfg(n, "lines"), workers=2 if quick else 4, timeout=3000, label="FuncFile_MC lines N=%d" % n, coverage=quick)
         require_clean(run, r, "FuncFile_MC lines")
         if quick:
             for act in ("FuncFile.Scan", "FuncFile.Eof", "FuncFile.Emit"):
@@ -172,7 +218,8 @@ def _check(run):
         run.cov["b3_loader_states"] = r.distinct
 
     def loader_layout():
-        r2 = run.tlc("FuncFile_MC", _ff_cfg(1, "layout").replace("PROPERTY Terminates\n", ""), workers=1, timeout=3000, label="FuncFile_MC layout law")
+        r2 = run.tlc("FuncFile_MC", _ff_cfg(1, "layout", inv="InvLineCount InvNoLeak InvPrefix InvDone InvLayout InvRuns InvKeepsGood").replace("PROPERTY Terminates\n", ""),
+                      workers=1 if quick else 4, timeout=3000, label="FuncFile_MC layout law")
         require_clean(run, r2, "FuncFile_MC layout")
         if r2.distinct < 50000:
             raise Inconclusive("layout law explored only %d states" % r2.distinct)
@@ -203,6 +250,77 @@ def _check(run):
         run.cov["pool_model_rejects"] = neg
         run.cov["b3_pool_states"] = total
 
+    # ---- B3 (d): the optimiser's probe is an evaluation (ExprProbe)
+    def probe_model():
+        def run_one(spec):
+            case, pis, wis, kw = spec
+            lab = "ExprProbe_MC %s P=%s W=%s %s" % (case, pis, wis, kw)
+            r = run.tlc("ExprProbe_MC", _probe_cfg(case, pis, wis, **kw), workers=2 if quick else 3, timeout=3000, label=lab)
+            require_clean(run, r, lab)
+            return r.distinct
+
+        def agree():
+            r = run.tlc("ExprProbe_MC", _probe_cfg("agree", [1], [1], opts=(False,), g=1), workers=1, timeout=900, label="ExprProbe_MC shapes = Shape(trees)")
+            require_clean(run, r, "ExprProbe_MC (declared shapes agree with ExprProbeScn!Shape)")
+            return 0
+
+        runs = [("scn", [1, 5, 6, 8], [1, 2], dict()), ("abs", [0], [1], dict(fifo=True))] if quick else \
+               [("scn", list(range(1, 12)), [1, 2, 3, 4], dict()), ("scn", [1], [1, 2], dict(evalp=True, live=True)),
+                ("scn", [1, 6, 8], [1, 4], dict(fifo=True)), ("abs", [0], [1, 2, 3], dict(fifo=True)), ("abs", [0], [1, 3], dict(live=True)),
+                ("scn", [1], [4], dict(g=3)), ("abs", [0], [1], dict(runinf=True))]
+
+        def negs():
+            neg = {}
+            # a helper exit path that hands its object back twice: reachable through the probe only -> the optimising process
+            # breaks OwnValues / ProbeNeutral, the plain process satisfies every law (that difference IS the violation of C10)
+            cases = [("for-bail-out-returns-twice", "scn", [1], [1], ["for/inf"], "OwnValues"),
+                     ("for-bail-out-returns-twice/two-workers-flat-map", "scn", [2], [4], ["for/inf"], "OwnValues"),
+                     ("map-over-nothing-returns-twice", "scn", [7], [1], ["map/zero"], "OwnValues")]
+            if not quick:
+                cases += [("for-bail-out-returns-twice/pool", "scn", [1], [4], ["for/inf"], "ProbeNeutral"),
+                          ("filter-error-path-returns-twice", "abs", [0], [2], ["filter/err"], "OwnValues")]
+            for name, case, pis, wis, dbl, inv in cases:
+                r = run.tlc("ExprProbe_MC", _probe_cfg(case, pis, wis, opts=(True,), double=dbl, inv=inv), workers=1, timeout=900,
+                            label="ExprProbe_MC negative (optimising): " + name)
+                if inv not in r.violated:
+                    raise Inconclusive("ExprProbe does not reject %s (violated=%s)\n%s" % (name, r.violated, r.out[-1500:]))
+                neg[name] = inv + " violated with optimisation"
+            r = run.tlc("ExprProbe_MC", _probe_cfg("scn", [1], [1], opts=(False,), double=["for/inf"]), workers=1, timeout=900,
+                        label="ExprProbe_MC control: for/inf returns twice, --no-optimize")
+            require_clean(run, r, "ExprProbe_MC (the deviation is unreachable without the probe)")
+            neg["for-bail-out-returns-twice"] += "; every law holds without optimisation"
+            if not quick:
+                # not demanded of the code: an exit path that does not return its object only makes the pool allocate (values are fine)
+                r = run.tlc("ExprProbe_MC", _probe_cfg("scn", [1], [1], opts=(True,), leak=["for/inf"], inv="OwnValues Survives Exclusive"), workers=1,
+                            timeout=900, label="ExprProbe_MC control: for/inf leaks its object")
+                require_clean(run, r, "ExprProbe_MC (a leak does not change a value)")
+            run.cov["probe_model_rejects"] = neg
+            return 0
+
+        if quick:
+            res = parallel([agree, negs] + [(lambda sp=sp: run_one(sp)) for sp in runs], 4)
+        else:
+            res = [agree(), negs()] + parallel([(lambda sp=sp: run_one(sp)) for sp in runs], 2)
+        total = sum(res)
+        if total < 100000:
+            raise Inconclusive("probe model explored only %d states" % total)
+        run.cov["b3_probe_states"] = total
+
+    probe_path = os.path.join(run.scratch, "c10-probe-vectors.ndjson")
+
+    def gen_probe():
+        r = run.tlc("ExprProbe_Gen", "INIT GInit\nNEXT GNext\nINVARIANTS Dump\nCHECK_DEADLOCK FALSE\n", workers=2, timeout=900, label="ExprProbe_Gen")
+        if r.violated or r.errors or not r.finished:
+            raise Inconclusive("probe generator failed: %s" % r.out[-2000:])
+        n = 0
+        with open(probe_path, "w") as f:
+            for v in vfj_lines(r.out):
+                f.write(json.dumps(v, separators=(",", ":")) + "\n")
+                n += 1
+        if n < 40:
+            raise Inconclusive("probe generator produced only %d scenarios" % n)
+        return n
+
     # ---- B1 generator
     def gen():
         r = run.tlc("ExprOpt_Gen", _gen_cfg(not quick, nfiles), workers=3 if quick else 6, timeout=3000, label="ExprOpt_Gen Thorough=%s" % (not quick))
@@ -221,9 +339,9 @@ def _check(run):
     def law():
         args = ["law", "-out", law_trace, "-info", law_info, "-dir", ldir, "-summary", law_sum, "-cli", cli]
         if quick:
-            args += ["-tuples", 3, "-extra", 3, "-funcfiles", 40, "-rounds", 300, "-clin", 50]
+            args += ["-tuples", 3, "-extra", 3, "-funcfiles", 40, "-rounds", 300, "-clin", 50, "-probes", 6]
         else:
-            args += ["-tuples", 12, "-extra", 10, "-funcfiles", 400, "-rounds", 4000, "-clin", 400]
+            args += ["-tuples", 12, "-extra", 10, "-funcfiles", 400, "-rounds", 4000, "-clin", 400, "-probes", 40]
         p = run.drv(args, check=False, timeout=2400)
         if p.returncode == 5:
             hang = [json.loads(ln[5:]) for ln in p.stdout.splitlines() if ln.startswith("HANG ")]
@@ -235,8 +353,10 @@ def _check(run):
         return json.load(open(law_sum))
 
     def replay():
-        p = run.drv(["replay", "-in", vec_path, "-out", res_path, "-dir", fdir, "-cli", cli, "-clin", 120 if quick else 1500],
-                    check=False, timeout=2400)
+        with open(vec_path, "a") as f:
+            f.write(open(probe_path).read())
+        p = run.drv(["replay", "-in", vec_path, "-out", res_path, "-dir", fdir, "-cli", cli, "-clin", 120 if quick else 1500,
+                     "-proberounds", 300 if quick else 3000], check=False, timeout=2400)
         if p.returncode == 5:
             hang = [json.loads(ln[5:]) for ln in p.stdout.splitlines() if ln.startswith("HANG ")]
             if hang:
@@ -273,12 +393,13 @@ def _check(run):
 
     # phase 1: generator (3) + laws (4) + loader (1)   | the Go law driver runs beside them
     if quick:
-        nvec, _, _, lsum = parallel([gen, laws, loader, law], 4)
-        rep, val, _, _, _ = parallel([replay, validate if lsum else (lambda: None), negatives, pools, loader_layout], 5)
+        nvec, _, _, lsum, _ = parallel([gen, laws, loader, law, gen_probe], 5)
+        rep, val, _, _, _, _ = parallel([replay, validate if lsum else (lambda: None), negatives, pools, loader_layout, probe_model], 6)
     else:
-        nvec, _, lsum = parallel([gen, loader, law], 3)
+        nvec, _, lsum, _ = parallel([gen, loader, law, gen_probe], 4)
         laws()
         rep, val, _, _, _ = parallel([replay, validate if lsum else (lambda: None), negatives, pools, loader_layout], 5)
+        probe_model()
 
     # ---- B1 verdicts
     if rep is not None:
@@ -288,6 +409,21 @@ def _check(run):
                 or rep["rel_comparisons"] < 100000 or rep["files_with_run_ge2"] < 10 or rep["per_group"].get("e0", 0) < 500 \
                 or rep["per_group"].get("e1", 0) < 500 or rep["per_group"].get("e2", 0) < 300 or rep["per_group"].get("eu", 0) < 200:
             raise Inconclusive("replay too small: %s" % {k: v for k, v in rep.items() if k not in ("mismatches", "per_func", "samples")})
+        pb = rep["probe"]
+        if pb["harness_failures"]:
+            raise Inconclusive("probe scenarios: child processes failed: %s" % pb["harness_failures"][:3])
+        if rep["bad_files"] < 10 or rep["failing_definitions"] < 10 or pb["scenarios"] < 40 or pb["runaway_scenarios"] < 20 or pb["decided"] < 2000 \
+                or pb["both_crash"] > 0 or pb["skipped"] > 0:
+            raise Inconclusive("replay too small (files with failing definitions / probe scenarios): %s %s" % (rep["bad_files"], pb))
+        run.cov["b1_files_with_failing_definitions"] = rep["bad_files"]
+        run.cov["b1_failing_definitions_in_them"] = rep["failing_definitions"]
+        run.cov["b1_probe_scenarios"] = pb["scenarios"]
+        run.cov["b1_probe_scenarios_whose_probe_runs_to_the_iteration_cap"] = pb["runaway_scenarios"]
+        run.cov["b1_probe_processes"] = pb["processes"]
+        run.cov["b1_probe_evaluations"] = pb["evaluations"]
+        run.cov["b1_probe_values_compared_with_the_specification"] = pb["decided"]
+        run.cov["traces_validated_against_impl"] += pb["evaluations"]
+        run.cov["evaluations"] += pb["evaluations"]
         run.cov["b1_vectors"] = rep["vectors"]
         run.cov["b1_evaluations"] = rep["runs"]
         run.cov["b1_evaluations_with_a_demanded_value"] = rep["decided"]
@@ -311,9 +447,32 @@ def _check(run):
                               "the funcs file %s (%s) is loaded to the functions %s (error %r%s); the specified loader defines %s. File:\n%s" % (
                                   m["env"], m["f"], m["got_names"], m["load_error"], " PANIC " + m["panic"] if m["panic"] else "", m["want_names"], m["file"]), m)
                 continue
+            if m["g"] == "probe":
+                if m["class"] == "process-dies":
+                    run.violation("b1:probe:process-dies:%s" % m["mode"].replace(" ", "-"),
+                                  "a process that compiles %s and %s with the %s compiler and evaluates them dies (%s); %s (ExprProbe.tla: Survives in "
+                                  "both modes)" % (m["template"], m["witness"], m["mode"], m["got"], m["expect_kind"]), m)
+                elif m["class"] == "opt-noopt":
+                    run.violation("b1:probe:opt-noopt",
+                                  "a process that compiles %s and %s with the optimising compiler and one that compiles them with the plain compiler "
+                                  "disagree: %s versus %s (ExprProbe.tla: the probe evaluation leaves no trace)" % (m["template"], m["witness"], m["got"], m["got_other"]), m)
+                else:
+                    run.violation("b1:probe:value:%s:%s:%s" % (m["mode"], m["which"], m["phase"]),
+                                  "in a process that compiled %s%s and %s with the %s compiler, %s (%s) on match groups %s and keys %s evaluates to %r%s; "
+                                  "the specification (ExprArray!EvalT) gives %r in every process" % (
+                                      m["template"], " (its probe runs to the iteration cap of @for)" if m["probe_runs_away"] else "", m["witness"], m["mode"],
+                                      m["evaluated"], m["phase"], m.get("m"), m.get("ks"), m.get("got"), " PANIC " + m["panic"] if m.get("panic") else "", m.get("expect")), m)
+                continue
             where = m.get("where") or m["g"]
             if m["g"] == "cli":
                 where = "cli"
+                if m["class"] == "file-with-failing-definitions":
+                    run.violation("b1:cli:file-with-failing-definitions:%s" % m["f"],
+                                  "rare %s expression %s%s with match groups %s and keys %s answers %r (error: %s); the funcs file holds definitions that do not "
+                                  "compile next to the one called, and FuncFile.tla delivers every definition that compiles: the value is %r. File:\n%s" % (
+                                      "RARE_FUNC_FILES=.." if m["via_environment"] else "--funcs ..", "" if m["opt"] else "--no-optimize ", m["template"], m.get("m"),
+                                      m.get("ks"), m.get("got"), m.get("err"), m.get("expect"), m["file"]), m)
+                    continue
             if where == "rel":
                 run.violation("b1:rel:%s:%s:%s" % (m["class"], m["g"], m["f"]),
                               "%s: template %s%s with match groups %s and keys %s (funcs file %s, step %s of its history): %s; the first gives %r, "
@@ -364,13 +523,18 @@ def _check(run):
         run.cov["b2_call_sites"] = lsum["call_sites"]
         run.cov["b2_concurrent"] = lsum["concurrent"]
         run.cov["b2_cli_runs"] = lsum["cli_runs"]
+        run.cov["b2_probe_law"] = lsum["probe"]
+        run.cov["b2_files_with_failing_definitions"] = lsum["bad_files"]
+        if lsum["probe"]["harness_failures"]:
+            raise Inconclusive("probe law: child processes failed: %s" % lsum["probe"]["harness_failures"][:3])
         if lsum["helpers_without_table_entry"]:
             run.cov["b2_helpers_with_generic_arguments"] = lsum["helpers_without_table_entry"]
         run.cov["traces_validated_against_impl"] += lsum["observations"]
         run.cov["evaluations"] += 2 * lsum["observations"]
         # (a funcs file the real loader refuses yields no call sites: with violations already reported a shortfall is their symptom)
         if not run.violations and (lsum["helpers"] < 80 or lsum["per_what"].get("opt-noopt", 0) < 20000 or lsum["per_what"].get("call-inline", 0) < 2000
-                                   or lsum["concurrent"]["goroutines"] < 8 or lsum["vol_expressions"] < 40):
+                                   or lsum["concurrent"]["goroutines"] < 8 or lsum["vol_expressions"] < 40
+                                   or lsum["probe"]["processes"] < 10 or lsum["bad_files"]["call_sites_in_such_files"] < 100):
             raise Inconclusive("law driver too small: %s" % {k: v for k, v in lsum.items() if k != "per_func"})
         k = 0
         for ln, info in zip(lines, infos):
